@@ -16,7 +16,7 @@ func init() {
 	register(&Property{
 		ID:      "C07",
 		NeedSSA: true,
-		Decided: "Structural necessary conditions: (hashdomain) for every physical kind the write side (splitBlockEncoding.Encode<K>, through its static callees) and the read side (Value.hash case K, through bloom.XXH64) reach xxhash functions of the same element width, and the bit-packed BOOLEAN page bytes never flow unmodified into a per-byte hash; (strategies) in flushFilterPages the `filter already filled` early exit is evaluated only for columns without a dictionary, the dictionary strategy is not chosen for a chunk that fell back to PLAIN, every non-copied column passes through flushFilterPages before its filter is written, and writeDataPage feeds the filter exactly for non-dictionary pages of a pre-sized filter; bloom filters are sized after buffered rows were flushed on the packing path; (check) CheckSplitBlock over decompressed bytes is given the length of those bytes; (own) bytes handed to a retained FileBloomFilter are allocated per filter; (header) the header written and the predicates that accept it name the same algorithm, hash and compression variants. (strategies, cont.) in flushFilterPages no sizing of the filter (which zeroes it) is reachable after an insertion, following constant boolean flags. (section) where io.NewSectionReader is given a bytes.Reader made from a slice in the same function, its length is the length of that very slice (the filter derives its block count from the section size).",
+		Decided: "Structural necessary conditions: (hashdomain) for every physical kind the write side (splitBlockEncoding.Encode<K>, through its static callees) and the read side (Value.hash case K, through bloom.XXH64) reach xxhash functions of the same element width, and the bit-packed BOOLEAN page bytes never flow unmodified into a per-byte hash; (strategies) in flushFilterPages the `filter already filled` early exit is evaluated only for columns without a dictionary, the dictionary strategy is not chosen for a chunk that fell back to PLAIN, every non-copied column passes through flushFilterPages before its filter is written, and writeDataPage feeds the filter exactly for non-dictionary pages of a pre-sized filter; bloom filters are sized after buffered rows were flushed on the packing path; (check) CheckSplitBlock over decompressed bytes is given the length of those bytes; (own) bytes handed to a retained FileBloomFilter are allocated per filter; (header) the header written and the predicates that accept it name the same algorithm, hash and compression variants. (strategies, cont.) in flushFilterPages no sizing of the filter (which zeroes it) is reachable after an insertion, following constant boolean flags. (section) where io.NewSectionReader is given a bytes.Reader made from a slice in the same function, its length is the length of that very slice (the filter derives its block count from the section size). (everypage) in writeDataPage the test that leads to the insertion of the page into a filter sized in advance dominates every successful return (the plaintext exit and the encrypted one).",
 		NotDecided: "the hash functions, block selection and masks themselves; the assembly kernels; filter sizing arithmetic; false-positive rates.",
 		Assumptions: []string{"xxhash defines MultiSum64Uint128 over 16-byte values equal to Sum64 over the same bytes (unit-tested upstream)"},
 		Run:         runC07,
@@ -28,6 +28,7 @@ func runC07(c *Ctx) {
 	c07Strategies(c)
 	c07Check(c)
 	c07Section(c)
+	c07EveryPage(c)
 }
 
 func xxhashWidth(name string) string {
@@ -522,4 +523,67 @@ func c07Section(c *Ctx) {
 		})
 	}
 	c.Min(rule, 2)
+}
+
+// c07EveryPage — when the filter of a column was sized in advance, the values
+// of a page go into it as the page is written: in writeDataPage the test that
+// leads to the insertion (the block whose branch calls the page-to-filter
+// routine) dominates every successful return of the function — the plaintext
+// exit and the encrypted one alike. An exit that is reached without passing
+// the test writes pages the filter knows nothing about.
+func c07EveryPage(c *Ctx) {
+	rule := "C07.everypage"
+	p := c.P
+	obj := p.LookupFunc("(*ColumnWriter).writeDataPage")
+	ins := p.LookupFunc("(*ColumnWriter).writePageToFilter")
+	if !c.Anchor(rule, "(*ColumnWriter).writeDataPage, (*ColumnWriter).writePageToFilter", obj != nil && ins != nil) {
+		return
+	}
+	fn := p.SSAFunc(obj)
+	var test *ssa.BasicBlock
+	allCalls(fn, false, func(_ *ssa.Function, call ssa.CallInstruction) {
+		if sc := call.Common().StaticCallee(); sc != nil && sc.Object() == ins {
+			// the closest dominating test
+			for d := call.Block().Idom(); d != nil; d = d.Idom() {
+				if _, isIf := d.Instrs[len(d.Instrs)-1].(*ssa.If); isIf {
+					test = d
+					// walk up through a conjunction (`a && len(filter) > 0`)
+					for test.Idom() != nil {
+						up := test.Idom()
+						if _, isIf := up.Instrs[len(up.Instrs)-1].(*ssa.If); isIf && len(test.Preds) == 1 && test.Preds[0] == up && len(test.Instrs) <= 6 {
+							test = up
+							continue
+						}
+						break
+					}
+					break
+				}
+			}
+		}
+	})
+	if !c.Anchor(rule, "the test that guards the insertion of a page into the filter", test != nil) {
+		return
+	}
+	var bad []string
+	n := 0
+	for _, ret := range returnsOf(fn) {
+		if !isSuccessReturn(ret, "nilerr") {
+			continue
+		}
+		// failing returns that reuse an error variable are not successes
+		rv, _ := retResult(ret, len(ret.Results)-1)
+		if rv != nil && !isNilConst(rv) {
+			continue
+		}
+		// `return 0, nil`: an empty page, nothing was written
+		if cnt, _ := retResult(ret, 0); cnt != nil && isZeroConst(cnt) {
+			continue
+		}
+		n++
+		if !test.Dominates(ret.Block()) {
+			bad = append(bad, p.Pos(ret.Pos()))
+		}
+	}
+	sort.Strings(bad)
+	c.Check(rule, "every successful exit of writeDataPage has offered the page to the filter", fn.Pos(), len(bad) == 0 && n >= 2, "(*ColumnWriter).writeDataPage returns successfully at "+strings.Join(bad, ", ")+" without having passed the test that inserts the page into a filter sized in advance: the pages written on that path (encrypted pages) are missing from the bloom filter, which is then trusted without being rebuilt")
 }
